@@ -3,6 +3,8 @@ package main
 import (
 	"encoding/json"
 	"fmt"
+	"go/ast"
+	"go/types"
 	"sort"
 	"strings"
 
@@ -95,6 +97,21 @@ func mustCall(u *Universe, f *ssa.Function, names map[string]bool, depth int, me
 		}
 		if names[u.callName(in)] {
 			return true
+		}
+		// a call through a function value taken from a package-level lookup table all of whose functions are among
+		// the required ones (the dispatch written as data)
+		if cc := call.Common(); cc.StaticCallee() == nil && !cc.IsInvoke() {
+			if fns := tableFunctions(u, cc.Value); len(fns) > 0 {
+				all := true
+				for _, fn := range fns {
+					if !names[fn] {
+						all = false
+					}
+				}
+				if all {
+					return true
+				}
+			}
 		}
 		if depth > 0 {
 			if h := call.Common().StaticCallee(); h != nil && h.Blocks != nil && h.Pkg != nil && strings.HasPrefix(h.Pkg.Pkg.Path(), modPath) {
@@ -196,7 +213,7 @@ func ruleMustCallEntries(c *Ctx, u *Universe, prop string, table []mustCallEntry
 					names[k] = true
 				}
 				// candidates: functions of the package the parent refers to (directly, or as a method bound to a value)
-				for _, h := range family(parent, 0)[1:] {
+				for _, h := range family(parent, 1)[1:] {
 					if h.Pkg != parent.Pkg || h.Parent() != nil || listedFunction(rel, u.fname(h)) {
 						continue
 					}
@@ -228,6 +245,17 @@ func ruleMustCallEntries(c *Ctx, u *Universe, prop string, table []mustCallEntry
 			continue
 		}
 		ok := mustCall(u, f, names, 2, map[*ssa.Function]int{})
+		if !ok && strings.Contains(name, "$") {
+			// closures are numbered in source order: when an earlier closure of the parent became a named function the
+			// numbers shift, and the work now lives in that new function
+			if parent := u.ssaFunc(rel, name[:strings.Index(name, "$")]); parent != nil {
+				for _, h := range family(parent, 1)[1:] {
+					if h.Pkg == parent.Pkg && h.Parent() == nil && !listedFunction(rel, u.fname(h)) && mustCall(u, h, names, 2, map[*ssa.Function]int{}) {
+						ok = true
+					}
+				}
+			}
+		}
 		R.check(ok, rule, key, u.pos(f.Pos()), "every normal exit is preceded by the call that does the work: "+e.Why,
 			"a path returns normally without calling "+e.Callee+" (a shortcut around the work): "+e.Why)
 	}
@@ -267,4 +295,86 @@ func moduleFuncGone(u *Universe, name string) bool {
 		return false
 	}
 	return u.ssaFunc(rel, name[len(rel)+1:]) == nil
+}
+
+// tableFunctions: when v is read out of a package-level table (map / slice / array literal, possibly of structs), the
+// functions of the module that the table's literal mentions (as given by fname); nil otherwise
+func tableFunctions(u *Universe, v ssa.Value) []string {
+	var g *ssa.Global
+	seen := map[ssa.Value]bool{}
+	var walk func(x ssa.Value)
+	walk = func(x ssa.Value) {
+		if x == nil || seen[x] || g != nil {
+			return
+		}
+		seen[x] = true
+		switch y := x.(type) {
+		case *ssa.Global:
+			g = y
+		case *ssa.UnOp:
+			walk(y.X)
+		case *ssa.Field:
+			walk(y.X)
+		case *ssa.FieldAddr:
+			walk(y.X)
+		case *ssa.Extract:
+			walk(y.Tuple)
+		case *ssa.Lookup:
+			walk(y.X)
+		case *ssa.Index:
+			walk(y.X)
+		case *ssa.IndexAddr:
+			walk(y.X)
+		case *ssa.Phi:
+			for _, e := range y.Edges {
+				walk(e)
+			}
+		case *ssa.Alloc:
+			for _, r := range *y.Referrers() {
+				if st, ok := r.(*ssa.Store); ok && st.Addr == ssa.Value(y) {
+					walk(st.Val)
+				}
+			}
+		}
+	}
+	walk(v)
+	if g == nil || g.Object() == nil || g.Pkg == nil {
+		return nil
+	}
+	var out []string
+	for rel, p := range u.Pkgs {
+		if p.Types != g.Object().Pkg() {
+			continue
+		}
+		for _, f := range p.Syntax {
+			for _, d := range f.Decls {
+				gd, ok := d.(*ast.GenDecl)
+				if !ok {
+					continue
+				}
+				for _, sp := range gd.Specs {
+					vs, ok := sp.(*ast.ValueSpec)
+					if !ok {
+						continue
+					}
+					for i, nm := range vs.Names {
+						if p.TypesInfo.Defs[nm] != g.Object() || i >= len(vs.Values) {
+							continue
+						}
+						ast.Inspect(vs.Values[i], func(n ast.Node) bool {
+							if id, ok := n.(*ast.Ident); ok {
+								if fn, isF := p.TypesInfo.Uses[id].(*types.Func); isF && fn.Pkg() != nil {
+									r2 := strings.TrimPrefix(strings.TrimPrefix(fn.Pkg().Path(), modPath), "/")
+									out = append(out, r2+"."+aliasName(fn))
+								}
+							}
+							return true
+						})
+					}
+				}
+			}
+		}
+		_ = rel
+	}
+	return out
 }
